@@ -501,6 +501,86 @@ def strat_p256(tier):
     return st.fixed_dictionaries(dict(x=st.integers(0, 1 << 264), variant=st.integers(0, 5)))
 
 
+# ------------------------------------------------------------------------------------------------ part: cli (openssl command line on PEM)
+
+OPENSSL_CLI = "/usr/bin/openssl"
+
+
+def _cli(args, data):
+    import subprocess
+
+    r = subprocess.run([OPENSSL_CLI] + args, input=bytes(data), capture_output=True, env={"PATH": "/usr/bin:/bin", "HOME": "/tmp"})
+    return r.returncode, r.stdout, r.stderr.decode("latin-1", "replace")[-300:]
+
+
+def _cli_text_fields(out):
+    """priv / pub hex blocks of `openssl ec|pkey -text -noout` -> dict(name -> int)"""
+    res = {}
+    cur = None
+    for line in out.decode("latin-1").splitlines():
+        if line in ("priv:", "pub:"):
+            cur = line[:-1]
+            res[cur] = ""
+        elif cur and line.startswith("    ") and all(ch in "0123456789abcdef:" for ch in line.strip()):
+            res[cur] += line.strip().replace(":", "")
+        else:
+            cur = None
+    return {k: bytes.fromhex(v) for k, v in res.items()}
+
+
+def check_cli(case, rec):
+    name, d, enc, explicit = case["curve"], case["d"], case["enc"], case["explicit"]
+    cx = Cx.get(name)
+    rec.cls("cli.curve=" + name)
+    rec.nt()
+    pub = cx.g.mul(d)
+    unc = b"\x04" + pub[0].to_bytes(cx.Lp, "big") + pub[1].to_bytes(cx.Lp, "big")
+    sk, vk = lib_keys(cx, d)
+    par = "explicit" if explicit else None
+    # library-made PEM -> openssl command line
+    for what, pem, args in (
+        ("SEC1 private PEM", sk.to_pem(enc, "ssleay", par), ["ec", "-text", "-noout"]),
+        ("PKCS#8 private PEM", sk.to_pem(enc, "pkcs8", par), ["pkey", "-text", "-noout"]),
+        ("public PEM", vk.to_pem(enc, par), ["pkey", "-pubin", "-text", "-noout"]),
+    ):
+        rc, out, err = _cli(args, pem)
+        if rc != 0:
+            raise Violation("%s: `openssl %s` rejects the library's %s (%s/%s): %s\n%s" % (name, " ".join(args), what, pname(explicit), enc, err, bytes(pem).decode("latin-1")))
+        f = _cli_text_fields(out)
+        if "pub" not in f or cx.g.oct2point(f["pub"]) != pub:
+            raise Violation("%s: `openssl %s` reads the library's %s as public point %s, expected %s" % (name, " ".join(args), what, f.get("pub", b"").hex(), unc.hex()))
+        if "private" in what and int.from_bytes(f.get("priv", b""), "big") != d:
+            raise Violation("%s: `openssl %s` reads the library's %s as scalar %s, expected %#x" % (name, " ".join(args), what, f.get("priv", b"").hex(), d))
+        rec.cls("cli.reads-library-pem")
+    # openssl command line output -> library
+    seed = c19ossl.priv_pem_sec1(cx.g, d)
+    conv = ["-conv_form", enc, "-param_enc", "explicit" if explicit else "named_curve"]
+    rc, sec1, err = _cli(["ec"] + conv, seed)
+    rc2, p8, err2 = _cli(["pkcs8", "-topk8", "-nocrypt"], sec1 if rc == 0 else seed)
+    rc3, pubpem, err3 = _cli(["ec", "-pubout"] + conv, seed)
+    if rc or rc2 or rc3:
+        raise core.HarnessError("openssl command line failed: %s %s %s" % (err, err2, err3))
+    for what, pem, dec in (("ec", sec1, LK.SigningKey.from_pem), ("pkcs8 -topk8", p8, LK.SigningKey.from_pem), ("ec -pubout", pubpem, LK.VerifyingKey.from_pem)):
+        k = call("%s: library reading the output of `openssl %s` (%s/%s):\n%s" % (name, what, pname(explicit), enc, pem.decode("latin-1")), dec, pem.decode("ascii"))
+        if dec is LK.SigningKey.from_pem:
+            expect_sk(cx, d, pub, k, "`openssl %s` output" % what)
+        else:
+            expect_vk(cx, pub, k, "`openssl %s` output" % what)
+        rec.cls("cli.library-reads-openssl-pem")
+
+
+def enum_cli(tier, shard, nshards, rng):
+    i = 0
+    for name in NAMES:
+        sp = special_keys(name)
+        keys = [sp["lzx"]] if tier == "quick" else [sp["lzx"], sp["lzy"], seeded_scalar(name, 200), seeded_scalar(name, 201)]
+        for j, d in enumerate(keys):
+            for explicit in (False, True):
+                i += 1
+                if i % nshards == shard:
+                    yield dict(curve=name, d=d, enc=ENC3[(i + j) % 3], explicit=explicit)
+
+
 # ------------------------------------------------------------------------------------------------ judging exceptions of decoders
 
 _REPO = os.path.realpath(env.REPO) + os.sep
@@ -693,8 +773,19 @@ def single_byte_mutations(b):
 # ------------------------------------------------------------------------------------------------ part: mutate
 
 
-def sweep_mutations(t, rec, buckets):
-    """All single-byte mutations of one seed. Returns (evaluations, non-trivial)."""
+def structural_variants(seed):
+    """Every TLV element of a valid DER encoding x every structural operation (lengths re-computed)."""
+    tree = tlv_parse(seed)
+    n = len(tlv_nodes(tree)) if tree else 0
+    for sel in range(n):
+        for op in STRUCT_OPS:
+            m = structural_edit(seed, sel, op)
+            if m is not None:
+                yield "struct-" + op, sel, m
+
+
+def sweep_mutations(t, rec, buckets, mode="mutate"):
+    """All single-byte mutations (mode 'mutate') or all structural TLV edits (mode 'struct') of one seed. Returns (evaluations, non-trivial)."""
     cx = Cx.get(t["curve"])
     seed = seed_bytes(t)
     fn = decoder(t["dec"], cx)
@@ -708,7 +799,7 @@ def sweep_mutations(t, rec, buckets):
     seen = {seed}
     ev = nt = 0
     counts = {}
-    for kind, i, m in single_byte_mutations(seed):
+    for kind, i, m in (single_byte_mutations(seed) if mode == "mutate" else structural_variants(seed)):
         if m in seen:
             continue
         seen.add(m)
@@ -746,7 +837,7 @@ def check_sweep(case, rec):
     if case.get("sweep") == "trunc":
         sweep_trunc(case, rec, b)
     else:
-        sweep_mutations(case, rec, b)
+        sweep_mutations(case, rec, b, case.get("sweep", "mutate"))
     rec.nt()
     msg = b.settle(rec, "%s of %s %s" % (case.get("sweep", "mutate"), case["curve"], case["dec"]))
     if msg:
@@ -763,6 +854,9 @@ def all_targets(tier, what):
         names = MUT_CURVES_QUICK if tier == "quick" else NAMES
     else:
         names = NAMES
+    kind = what
+    if what == "struct":
+        what = "mutate"  # same seeds, restricted to DER below
     for name in names:
         sp = special_keys(name)
         ks = [seeded_scalar(name, 100)]
@@ -776,8 +870,13 @@ def all_targets(tier, what):
             ts.extend(targets_for(name, d, tier, what))
 
     def cost(t):
-        return COST[t["curve"]] * (6 if t.get("explicit") else 1) * (2 if t["dec"].startswith("sk") else 1)
+        # measured: explicit-parameter private keys dominate (every decode builds a generator table and multiplies)
+        sk = t["dec"].startswith(("sk.", "plug.priv"))
+        w = (70 if "der" in t["dec"] else 30) if sk and t.get("explicit") else 4 if sk else 3 if t.get("explicit") else 1
+        return COST[t["curve"]] * w
 
+    if kind == "struct":
+        ts = [t for t in ts if t["dec"].split(":")[0].endswith("from_der")]
     ts.sort(key=lambda t: -cost(t))
     return ts
 
@@ -797,7 +896,7 @@ def bulk_sweeps(what):
                 if what == "trunc":
                     e, n = sweep_trunc(t, rec, b)
                 else:
-                    e, n = sweep_mutations(t, rec, b)
+                    e, n = sweep_mutations(t, rec, b, what)
             except Violation as v:
                 rec.bulk(what, ev, nt, sample=sample)
                 return dict(t, sweep=what), str(v)
@@ -1018,10 +1117,12 @@ def strat_generated(tier):
 
 def parts(tier):
     return [
-        Part("formats", check=check_formats, enum=enum_formats, quick=(16, 0), thorough=(16, 0), exhaustive=True),
-        Part("bec2hdr_keys", check=check_p256, enum=enum_p256, quick=(2, 0), thorough=(2, 0), exhaustive=True),
+        Part("formats", check=check_formats, enum=enum_formats, quick=(16, 0), thorough=(16, 0)),
+        Part("bec2hdr_keys", check=check_p256, enum=enum_p256, quick=(2, 0), thorough=(2, 0)),
         Part("bec2hdr", check=check_p256, strategy=strat_p256, quick=(4, 60), thorough=(16, 1500)),
+    ] + ([Part("cli", check=check_cli, enum=enum_cli, quick=(8, 0), thorough=(16, 0))] if os.path.exists(OPENSSL_CLI) else []) + [
         Part("trunc", check=check_sweep, bulk=bulk_sweeps("trunc"), quick=(16, 0), thorough=(16, 0), exhaustive=True),
         Part("mutate", check=check_sweep, bulk=bulk_sweeps("mutate"), quick=(16, 0), thorough=(16, 0), exhaustive=True),
+        Part("struct", check=check_sweep, bulk=bulk_sweeps("struct"), quick=(8, 0), thorough=(16, 0), exhaustive=True),
         Part("generated", check=check_generated, strategy=strat_generated, quick=(16, 60), thorough=(16, 2500)),
     ]
